@@ -15,7 +15,9 @@
      4    antismash/common/secmet/features/candidate_cluster/formation.py :
           create_candidates_from_protoclusters -> C05.Model.create_candidates (set iteration =
           ascending protocluster id; another order = another numbering of the same protoclusters),
-          `_ordered` = C05.Model.ordered_list
+          `_ordered` = C05.Model.ordered_list (pre-sort key (product, core_start, core_end) since the repair of
+          same_product_equal_coordinates_member_order; the singles loop iterates _ordered(set(unassigned)) since the
+          repair of single_candidates_set_order)
      5    antismash/common/secmet/features/region/structures.py : Region.get_unique_protoclusters
           (both branches)                      -> unique_protoclusters
      6    cluster_prediction.py : CDSResults.to_json `sorted(set of str)`;
@@ -84,9 +86,9 @@ Definition find_protoclusters_o (N c nb : Z) (o : list agene) : list (Z * Z * Z 
 
 (* ------------------------------------------------------------------ stage 5: Region.get_unique_protoclusters *)
 (* a protocluster as the function sees it: identity, Feature.start, Feature.end, len(location),
-   product (numbered in string order).  In a region that does not cross the origin every
-   protocluster has a single part, so start/end are the location's. *)
-Record uproto := mkU { uid : Z; ust : Z; uen : Z; ulen : Z; uprod : Z }.
+   product (numbered in string order), core_start, core_end.  In a region that does not cross the origin
+   every protocluster has a single part, so start/end are the location's. *)
+Record uproto := mkU { uid : Z; ust : Z; uen : Z; ulen : Z; uprod : Z; ucs : Z; uce : Z }.
 Definition lex2 (a b : Z * Z) : bool :=
   (fst a <? fst b) || ((fst a =? fst b) && (snd a <? snd b)).
 Definition lex3 (a b : Z * Z * Z) : bool :=
@@ -98,8 +100,14 @@ Definition u_contains (a b : uproto) : bool :=
 Definition u_lt (a b : uproto) : bool :=
   if u_contains a b && negb (u_contains b a) then true
   else lex2 (ust a, - ulen a) (ust b, - ulen b).
-(* `return sorted(clusters)`, clusters a set of identity-hashed objects enumerated as `o` *)
-Definition unique_linear (o : list uproto) : list uproto := sort_by u_lt o.
+(* `by_product = sorted(clusters, key=(product, core_start, core_end)); return sorted(by_product)`,
+   clusters a set of identity-hashed objects enumerated as `o` (the pre-sort is the repair of
+   unique_protoclusters_set_order; before it: sort_by u_lt o) *)
+Definition upre_key (p : uproto) : Z * Z * Z := (uprod p, ucs p, uce p).
+Definition upre_lt (a b : uproto) : bool := lex3 (upre_key a) (upre_key b).
+Definition unique_linear (o : list uproto) : list uproto := sort_by u_lt (sort_by upre_lt o).
+(* the code before the repair *)
+Definition unique_linear_unrepaired (o : list uproto) : list uproto := sort_by u_lt o.
 (* `reduction`: collection.start < record_length / 2  <->  2 * start < record_length *)
 Definition red_key (N : Z) (p : uproto) : Z * Z * Z :=
   ((if 2 * ust p <? N then ust p + N else ust p), - ulen p, uprod p).
@@ -135,7 +143,7 @@ Definition dAGene : dec agene := fun l =>
   match l with i :: a :: b :: r => Some (mkAG i (C03.Model.mkItv a b), r) | _ => None end.
 Definition dARule : dec (Z * Z * list agene) := dPair (dPair dZ dZ) (dList dAGene).
 Definition dU : dec uproto := fun l =>
-  match l with i :: a :: b :: c :: d :: r => Some (mkU i a b c d, r) | _ => None end.
+  match l with i :: a :: b :: c :: d :: cs :: ce :: r => Some (mkU i a b c d cs ce, r) | _ => None end.
 Definition eUIds (l : list uproto) : list Z := eList (fun p => [uid p]) l.
 
 Definition run_C17 (fn : Z) (l : list Z) : list Z :=
